@@ -166,7 +166,8 @@ func decompressAll(algo pwr.CompressionAlgorithm, b []byte) ([]byte, error) {
 		}
 		return io.ReadAll(zr)
 	case pwr.CompressionAlgorithm_BROTLI:
-		return dec.DecompressBuffer(b, nil)
+		// (the one-shot dec.DecompressBuffer gives up on highly compressible streams)
+		return io.ReadAll(dec.NewBrotliReader(bytes.NewReader(b)))
 	}
 	return nil, fmt.Errorf("unknown compression %v", algo)
 }
